@@ -300,6 +300,9 @@ def _gen_case(rp, rf, rk, tier, flavour):
             "kw_pad": rk.random() < 0.15, "facts_mid": (rk.randrange(len(specs)) if flavour == "C09" and rk.random() < 0.2 else None),
             "marker_mode": marker_mode, "regime": "collision" if collision else ("k6" if k6 else "base"),
             "suffix_pair": suffix_pair, "prefix_pair": prefix_pair, "mac_twins": mac_twins, "_pool": pool}
+    if flavour == "C10" and rk.random() < 0.12:
+        # the tuning knob MAX_LINE_LENGTH (1 MiB as shipped) turned down, so that lines are actually cut
+        case["max_line"] = rk.choice([12, 20, 40, 80])
     if not cfg["obfuscate"] and len(specs) >= 2 and rk.random() < 0.6:
         case["concurrent"] = {"seed": rk.getrandbits(32),
                               "policy": ({"kind": "walk", "p": rk.choice([0.02, 0.05, 0.1, 0.3])} if rk.random() < 0.7 else
@@ -363,6 +366,14 @@ def run_history(case, facts_dir=None, serial=False):
     if facts_dir:
         cfgd["rhsm_facts_file"] = os.path.join(facts_dir, "insights-client.facts")
     cfg = Cfg(**cfgd)
+    if case.get("max_line"):
+        import insights.cleaner as _cl
+        saved_max = _cl.MAX_LINE_LENGTH
+        _cl.MAX_LINE_LENGTH = case["max_line"]
+        try:
+            return run_history(dict(case, max_line=None), facts_dir=facts_dir, serial=serial)
+        finally:
+            _cl.MAX_LINE_LENGTH = saved_max
     c = Cleaner(cfg, rm_conf_of(case), fqdn=case["fqdn"])
     if facts_dir:
         c.report_dir = facts_dir
@@ -985,6 +996,10 @@ def shrink(case):
                 c = cp()
                 c["specs"][si][key] = simple
                 yield c
+    if case.get("max_line"):
+        c = cp()
+        c.pop("max_line")
+        yield c
     if case["keywords"]:
         for k in range(len(case["keywords"])):
             c = cp()
